@@ -120,6 +120,34 @@ SEEDS = {
            "a declaration with trailing optional node(s) declared after an identically spelled one of the same kind (TRIGger:DELay then TRIGger:DELay:[TIME])"),
  "C14-D": ("microscpi-macros lib.rs: insertion errors reported only for user functions (round 2; same as C14-B)",
            "a user declaration that meets a built-in with StandardCommands/ErrorCommands"),
+ "C01-E": ("macro emits sorted children and Node::child bisects with a lower-casing comparison (round 3; same idea as C01-B/C)",
+           "sibling names that first differ in '_' versus a letter (CH_A next to CHANnel)"),
+ "C02-E": ("interface.rs is_complete_message(): a common command resets the look-ahead's header path to the root",
+           "through process: compound unit, then a common command, then a relative unit not defined at the root, with a newline inside a later payload. Neutralised by the repair of D12 (a parse error in the look-ahead no longer counts as 'complete' inside an open string)"),
+ "C03-E": ("value.rs: f32 conversion through f64 (round 3; same as C03-A/C)",
+           "f32 parameter, literal within half an f64 ulp of an f32 midpoint"),
+ "C04-E": ("interface.rs: execute() no longer rolls back; run() rolls back to a 'complete' position that is refreshed only at message terminators",
+           "compound message in which a successful query precedes an execution failure, with a writer that can roll back (heapless / std Vec, process): the earlier response is lost"),
+ "C05-E": ("interface.rs process(): overflow reset only when the full buffer holds no newline",
+           "a message longer than N with a newline inside an unfinished string/block in the part that fits: read into an empty buffer forever"),
+ "C06-E": ("interface.rs run(): string-aware terminator search after a parse error that does not know blocks",
+           "parse fault plus a block with an unbalanced quote byte in the same message. Written for the tree before the repair of D12; does not apply to the repaired tree (whose skip_message is the block-aware version of the same idea; C06-C rebased covers the block-unaware variant)"),
+ "C07-E": ("interface.rs process(): `break` at a newline inside a payload (round 3; same as C10-A/C)",
+           "embedded newline and real terminator in the same read"),
+ "C08-E": ("interface.rs is_complete_message(): header reset after a common command (same change as C02-E)",
+           "as C02-E; neutralised by the repair of D12"),
+ "C09-E": ("error_queue.rs push_error(): 'already marked' arm not guarded by the full check - once -350 is the newest entry further errors are dropped",
+           "capacity >= 2: overflow, then at least one but fewer than capacity reads, then one more error"),
+ "C10-E": ("interface.rs process(): `break` at a newline inside a payload (round 3)",
+           "embedded newline and real terminator in the same read: complete query unanswered while process reads on"),
+ "C11-E": ("interface.rs process(): 'padding after the last terminator' dropped whenever the newly read bytes are all white space",
+           "through process: a read that consists only of white space inside the mandatory gap between header and parameters"),
+ "C12-E": ("parser.rs arguments(): optional(separated_argument) swallows Incomplete (round 3; same as C12-A/D)",
+           "string/block with a newline as second or later parameter"),
+ "C13-E": ("microscpi-macros lib.rs: async handlers with a reference parameter (&str, &[u8]) are boxed",
+           "dispatch of such a handler with matching arguments: one heap allocation; the no_std staticlib no longer links"),
+ "C14-E": ("microscpi-macros tree.rs: long and short form share one node, the short form added with or_insert",
+           "two declarations of one kind that collide only through the short form of the later one (MEAS then MEASure; SYSTem / SYSTolic): compiles, later declaration shadowed"),
 }
 
 
@@ -152,11 +180,27 @@ def main():
             "first_report": {c: v["first"] for c, v in res.get("checks", {}).items() if v["exit"] == 1},
         }
         json.dump(meta, open(os.path.join(d, "meta.json"), "w"), indent=1)
-        rows.append((name, what, needs, meta["detected_by"], meta["machinery_errors"]))
-    print("| seeded change | what it does | detected by (quick tier) |")
-    print("|---|---|---|")
-    for name, what, needs, det, mach in rows:
-        print(f"| {name} | {what}; needs: {needs} | {', '.join(det) if det else '**none**'}{' (machinery: ' + ','.join(mach) + ')' if mach else ''} |")
+        fin = {}
+        for f in sorted(os.listdir(d)):
+            if f.startswith("final-") and f.endswith(".json"):
+                fin = json.load(open(os.path.join(d, f)))
+        if fin:
+            if not fin.get("patch_applies"):
+                status = "does not apply (superseded by later repairs)"
+            elif not fin.get("valid"):
+                status = "applies, but its demonstration no longer fails: neutralised by a later repair" if fin.get("demo_passes_unpatched") else "not valid on the repaired tree"
+            elif fin.get("detected_by"):
+                status = "reported by " + ", ".join(fin["detected_by"])
+            else:
+                status = "not reported"
+            meta["at_final_head"] = {"repo_head": fin.get("repo_head"), "status": status}
+            json.dump(meta, open(os.path.join(d, "meta.json"), "w"), indent=1)
+        rows.append((name, what, needs, meta["detected_by"], meta["machinery_errors"], meta.get("at_final_head", {}).get("status", "-"), res.get("repo_head")))
+    print("| seeded change | what it does | all 14 quick checks at the head it was written for | target check on the final, repaired tree |")
+    print("|---|---|---|---|")
+    for name, what, needs, det, mach, fin, head in rows:
+        col = (', '.join(det) if det else ('not run (see text)' if name.endswith('-E') else '**none**')) + (' (machinery: ' + ','.join(mach) + ')' if mach else '') + (f' @{head}' if head else '')
+        print(f"| {name} | {what}; needs: {needs} | {col} | {fin} |")
 
 
 main()
